@@ -16,7 +16,7 @@ RULE = ('dense datasets with small-integer templates, absent / diagonal dyadic w
         'non-trivial = every case (>= 3 spikes, >= 2 templates)')
 ASSUMPTIONS = ['exact-arithmetic model; the generated values make every float operation of the real code exact or '
                'a single correctly rounded division, compared through fractions.Fraction; rescaled templates and '
-               'curated-cluster chains use a relative tolerance of 1e-9',
+               'curated-cluster chains use a relative tolerance of 1e-9; two-step chains (mean x factor, samples / rate x 1000) 2^-40',
                'np.linalg.inv of a diagonal power-of-two matrix is exact']
 
 
@@ -74,10 +74,15 @@ def model_query(case, impl_res):
     for use in ('templates', 'clusters'):
         a = ok['amps_' + use]
         if 'raised' in a:
-            qs.append(dict(op='mean_amps', ids=[0], amplitudes=[1]))
+            qs += [dict(op='mean_amps', ids=[0], amplitudes=[1])] * 3
             continue
-        qs.append(dict(op='amps', wfs=DC.fracs(a['wfs']), wmi=wmi, amplitudes=amps, spikes=a['spikes']))
-        qs.append(dict(op='channels', wfs=DC.fracs(a['wfs'])))
+        # the unit factor and the sampling rate go to the Lean model as exact rationals: the model returns the
+        # RETURN VALUES of get_amplitudes_true and the durations in milliseconds
+        qs.append(dict(op='amps', wfs=DC.fracs(a['wfs']), wmi=wmi, amplitudes=amps, spikes=a['spikes'],
+                       factor=DC.frac(case['factor'])))
+        qs.append(dict(op='channels', wfs=DC.fracs(a['wfs']), rate=DC.frac(spec['sample_rate'])))
+        # the property's own predicate on the REAL rescaled waveforms: their peak amplitude, computed by Lean
+        qs.append(dict(op='peak_amps', wfs=[DC.fracs(W) for W in a['phys'] if _finite(W)]))
     qs.append(dict(op='mean_amps', ids=spec['spike_templates'], amplitudes=amps))
     qs.append(dict(op='mean_amps', ids=spec.get('spike_clusters') or spec['spike_templates'], amplitudes=amps))
     if spec.get('pc_features') is not None:
@@ -91,6 +96,13 @@ def model_query(case, impl_res):
                             sc=spec.get('spike_clusters') or st8, ns=len(spec['templates'][0]), nc=spec['n_channels'])
     q['qs'] = qs
     return q
+
+
+TOL = 2. ** -40      # DESIGN §3: relative tolerance for two-step float chains
+
+
+def _finite(W):
+    return all(x is not None and abs(x) != float('inf') for row in W for x in row)
 
 
 def _close(a, b, tol):
@@ -146,44 +158,77 @@ def judge(case, impl_res, ans):
         a = ok['amps_' + use]
         if 'raised' in a:
             return 'SPEC: get_amplitudes_true(use=%r) raised %s (%s)' % (use, a['raised'], a['msg'])
-        m = res[k]; ch = res[k + 1]; k += 2
+        m = res[k]; ch = res[k + 1]
+        if use == 'templates':
+            tpl_peaks = ch['peak']
+        real_peaks = iter(res[k + 2]['peaks'])
+        k += 3
         if m['amps_v'] != m['amps_v_spec']:
             return 'MACHINERY: model amplitudes differ from the mean-over-members spec (contradicts the theorem)'
-        tol = 1e-9 if (use == 'clusters' and curated) else 0.
-        exp_spike = [DC.to_float(x) * f for x in m['spike_amps']]
+        if ch['durations_ms'] != ch['durations_ms_spec']:
+            return 'MACHINERY: model durations (flat-index route) differ from the per-waveform formula (contradicts the theorem)'
+        # exact-arithmetic domain: un-curated data (small integers / dyadic values). There the returned spike
+        # amplitudes are exact products; the per-id means are ONE correctly rounded division when the factor is 1,
+        # and a division followed by a multiplication otherwise (compared with the relative tolerance 2^-40 of
+        # DESIGN §3). Curated cluster waveforms are floating-point weighted means: 1e-9.
+        inexact = use == 'clusters' and curated
+        tol = 1e-9 if inexact else 0.
+        tol_v = 1e-9 if inexact else (0. if f == 1 else TOL)
+        exp_spike = [DC.to_float(x) for x in m['spike_amps']]
         if len(a['spike']) != len(exp_spike) or not all(_close(x, y, tol) for x, y in zip(a['spike'], exp_spike)):
             return 'SPEC: scaled spike amplitudes (%s) differ from amplitude x largest unwhitened peak-to-peak x factor' % use
-        exp_v = [None if x is None else DC.to_float(x) * f for x in m['amps_v']]
-        if len(a['v']) != len(exp_v) or not all(_close(x, y, tol) for x, y in zip(a['v'], exp_v)):
+        exp_v = [DC.to_float(x) for x in m['amps_v']]
+        if len(a['v']) != len(exp_v) or not all(_close(x, y, tol_v) for x, y in zip(a['v'], exp_v)):
             return 'SPEC: per-%s amplitudes differ from the mean over member spikes (NaN for ids without spikes): %s vs %s' % (
                 use[:-1], a['v'], exp_v)
         # rescaled templates have exactly that peak amplitude
+        if len(a['phys']) != len(m['rescaled']):
+            return 'SPEC: %d rescaled %s for %d ids' % (len(a['phys']), use, len(m['rescaled']))
         for t, (ph, pk) in enumerate(zip(a['phys'], m['rescaled_peak'])):
             if pk is None:
+                if _finite(ph):
+                    next(real_peaks)
+                # no spike: the returned waveform is NaN everywhere (a flat waveform WITH spikes divides by
+                # zero, which the property does not speak about)
+                if m['amps_v'][t] is None and any(x is not None for row in ph for x in row):
+                    return 'SPEC: rescaled %s %d has no spikes but is not NaN everywhere' % (use[:-1], t)
                 continue
-            W = np.array(ph, dtype=np.float64)
-            peak = float((W.max(axis=0) - W.min(axis=0)).max())
-            if not _close(peak, DC.to_float(pk) * f, 1e-9):
-                return 'SPEC: rescaled %s %d has peak amplitude %r, expected its mean spike amplitude %r' % (
-                    use[:-1], t, peak, DC.to_float(pk) * f)
+            if not _finite(ph):
+                return 'SPEC: rescaled %s %d has spikes and a non-flat waveform but holds NaN/inf' % (use[:-1], t)
+            peak = DC.to_float(next(real_peaks))         # largest channel peak-to-peak of the REAL returned waveform
+            if not _close(peak, a['v'][t], 1e-9):
+                return 'SPEC: rescaled %s %d has peak amplitude %r, but its returned mean spike amplitude is %r' % (
+                    use[:-1], t, peak, a['v'][t])
+            # ... and is, entry by entry, the unwhitened waveform x (mean amplitude / arbitrary-unit amplitude) x factor
+            R = m['rescaled'][t]
+            if len(ph) != len(R) or any(len(r1) != len(r2) for r1, r2 in zip(ph, R)) or \
+                    not all(_close(x, DC.to_float(y), 1e-9) for r1, r2 in zip(ph, R) for x, y in zip(r1, r2)):
+                return 'SPEC: rescaled %s %d is not the unwhitened waveform scaled to its mean spike amplitude' % (use[:-1], t)
         got_ch = ok[use + '_channels']
-        # the same two summaries recomputed in floating point from the waveforms the model shows (for
-        # curated clusters these are weighted means, where the exact-rational model is not used)
-        W = np.array(a['wfs'], dtype=np.float64)
-        if W.size:
-            ptp = W.max(axis=1) - W.min(axis=1)
-            pk = ptp.argmax(axis=1)
-            dur = (W.argmax(axis=1) - W.argmin(axis=1))[np.arange(len(W)), pk].astype(np.float64) / sr * 1e3
-            if got_ch != pk.tolist():
-                return 'SPEC: %s_channels differ from the first arg-max of the per-channel peak-to-peak of the %s waveforms' % (use, use[:-1])
-            if ok[use + '_durations'] != dur.tolist():
-                return 'SPEC: %s waveform durations differ from (argmax - argmin) on the peak channel in ms' % use
-        if got_ch != ch['peak'] and not (use == 'clusters' and curated):
-            return 'SPEC: %s_channels differ from the first arg-max of the per-channel peak-to-peak' % use
-        exp_d = [float(x) / sr * 1e3 for x in ch['durations']]
-        if ok[use + '_durations'] != exp_d and not (use == 'clusters' and curated):
-            return 'SPEC: %s waveform durations differ from (argmax - argmin) on the peak channel in ms' % use
-    if ok['templates_probes'] != [ok['channel_probes'][c] for c in ok['templates_channels']]:
+        got_d = ok[use + '_durations']
+        nw = len(ch['peak'])
+        if len(got_ch) != nw or len(got_d) != nw:
+            return 'SPEC: %d peak channels / %d durations for %d %s waveforms' % (len(got_ch), len(got_d), nw, use[:-1])
+        if not inexact:
+            if got_ch != ch['peak']:
+                return 'SPEC: %s_channels differ from the first arg-max of the per-channel peak-to-peak' % use
+            exp_d = [DC.to_float(x) for x in ch['durations_ms']]
+            if not all(_close(x, y, TOL) for x, y in zip(got_d, exp_d)):
+                return 'SPEC: %s waveform durations %s differ from (argmax - argmin) on the peak channel in ms %s' % (use, got_d, exp_d)
+        else:
+            # floating-point weighted means: a channel whose exact peak-to-peak is within 2^-40 of the largest one
+            # is accepted as peak channel (rounding of max - min may break such a tie either way); the duration
+            # must be the one of the REPORTED channel (arg-max / arg-min along time compare stored values: exact)
+            for t in range(nw):
+                if got_ch[t] not in ch['near_peaks'][t]:
+                    return 'SPEC: clusters_channels[%d] = %d is not a channel of largest peak-to-peak %s' % (t, got_ch[t], ch['near_peaks'][t])
+                if not _close(got_d[t], DC.to_float(ch['dur_table_ms'][t][got_ch[t]]), TOL):
+                    return 'SPEC: clusters waveform duration %d differs from (argmax - argmin) on the peak channel in ms' % t
+    # probe of the peak channel: the STORED probe table (all zeros when the dataset has none) at the MODEL's peak channel
+    stored_probes = list(spec.get('channel_probes') or [0] * spec['n_channels'])
+    if ok['channel_probes'] != stored_probes:
+        return 'SPEC: channel_probes %s differ from the stored table %s' % (ok['channel_probes'], stored_probes)
+    if ok['templates_probes'] != [stored_probes[c] for c in tpl_peaks]:
         return 'SPEC: templates_probes is not the probe of the peak channel'
     for key in ('templates_amplitudes', 'clusters_amplitudes'):
         exp = [DC.to_float(x[1]) for x in res[k]['model']]; k += 1
